@@ -225,7 +225,7 @@ ADDENDA5 = {
  "C12": " The re-encoded frame is storage of its own (shared with C03).",
  "C13": " A locally built answer gets a header of its own: no field of a received frame's header is written (shared with C03).",
  "C15": " A host list that was handed to listeners inside an event is never written through (no append to a re-slice of it).",
- "C16": " An event is never dropped between the control connection's reader and the control loop (shared with C14); every step of a connection attempt that waits for the peer is bounded by the caller's context.",
+ "C16": " An event is never dropped between the control connection's reader and the control loop (shared with C14); every step of a connection attempt that waits for the peer is bounded by the caller's context; the reconnect loops end only when their context is done.",
  "C17": " A pooled connection whose set-up fails is closed on every error path; a connection attempt cannot outlive its context (shared with C16).",
  "C19": _RT + " No tls.Config of package astra enables session resumption (the custom verification runs only in full handshakes).",
 }
